@@ -29,7 +29,7 @@ import c11_lib as L
 
 L.reset_default_registry()  # records the baseline of the default registry (string cache, table)
 
-PROOF_MODULES = ["UnytProofs.C11", "UnytProofs.C11Tab", "UnytProofs.C11Tab2", "UnytProofs.C11Tab3"]
+PROOF_MODULES = ["UnytProofs.C11", "UnytProofs.C11Tab", "UnytProofs.C11Tab2", "UnytProofs.C11Tab3", "UnytProofs.C11Chain"]
 
 LIB_SRC = open(os.path.join(os.path.dirname(os.path.abspath(__file__)), "c11_lib.py"), encoding="utf-8").read()
 PRE = (LIB_SRC + "\nimport unyt, sympy\nfrom unyt import Unit, unyt_array, unyt_quantity\n"
@@ -54,6 +54,19 @@ FAMILIES = {
                         "redeclare(reg, 'Msun', 'prefixable')\n", ""),
 }
 
+# TWO-STEP HISTORIES: the registry is what a route hands back for a default-registry quantity (a deep
+# copy / unpickled copy / from_json copy of the default registry: a registry object the user did not
+# build, of whatever class that route gives it); the user adds units of their own to it, and the object
+# is persisted again on every route.  One family per route that yields such a private registry.
+AFTER = "after-"
+try:
+    ORIGIN_ROUTES = L.private_origin_routes()
+except Exception:  # noqa: BLE001 - a route that cannot even restore a default quantity shows elsewhere
+    ORIGIN_ROUTES = []
+for _r1 in ORIGIN_ROUTES:
+    FAMILIES[AFTER + _r1] = (ADDED.replace("reg = UnitRegistry()\n", f"reg = origin_registry({_r1!r})\n"), "")
+L.reset_default_registry()
+
 CORE_UNITS = {
     "default": ["degree", "lat", "lon", "rad", "mrad", "arcmin", "K", "R", "degC", "degF", "delta_degC", "delta_degF",
                 "mK", "dB", "Np", "km", "m/s", "g", "kg*m**2/s**2", "dimensionless", "percent", "T", "statC", "rad*m/km", "1/K", "delta_degC*mol", "K*mol", "dB*mol"],
@@ -65,6 +78,9 @@ CORE_UNITS = {
     "stale-quantity": ["vfoo"],
     "redeclared-flag": ["mile", "kmile", "bar", "kMsun"],
 }
+
+for _r1 in ORIGIN_ROUTES:
+    CORE_UNITS[AFTER + _r1] = ["vfoo", "vang", "km"]
 
 DATA = {
     "q": ("unyt_quantity", "90.0"),
@@ -184,7 +200,7 @@ def route_src(route, proto, container):
 def unit_class(family, unit):
     if unit.startswith("delta_deg"):
         return "delta-display"
-    if family in ("added", "stale", "stale-quantity") and ("vfoo" in unit or unit in ("vang", "vtem", "vlog")):
+    if (family in ("added", "stale", "stale-quantity") or family.startswith(AFTER)) and ("vfoo" in unit or unit in ("vang", "vtem", "vlog")):
         return "user-symbol"
     if family == "redeclared-flag" and unit in ("kmile", "kMsun"):
         return "user-symbol"  # a spelling that exists only through the user's declaration
@@ -677,6 +693,12 @@ def plan(tier, rng):
         for u in units:
             for route in L.ROUTES:
                 jobs.append((fam, u, "a", False, route, None, False))
+            if fam.startswith(AFTER):
+                # the second step of a history: every route (above), a bare Unit under a rotating pickle
+                # protocol, and the warm path of Unit.copy
+                jobs.append((fam, u, "q", False, "pickleUnit", protos[len(jobs) % len(protos)], False))
+                jobs.append((fam, u, "a", True, "unitCopy", None, False))
+                continue
             # quantities, warm units, containers, explicit protocols on a rotating subset
             jobs.append((fam, u, "q", False, "pickleArray", protos[len(jobs) % len(protos)], False))
             jobs.append((fam, u, "q", True, "deepcopyArray", None, False))
@@ -708,6 +730,8 @@ def plan(tier, rng):
     if tier == "thorough":
         for fam, units in CORE_UNITS.items():
             for u in units:
+                if fam.startswith(AFTER) and u != "vfoo":
+                    continue
                 for p in protos:
                     for r in ("pickleArray", "pickleUnit"):
                         jobs.append((fam, u, "q", False, r, p, False))
@@ -750,6 +774,23 @@ def correspond(chk, tier, rng):
     except Exception as e:  # noqa: BLE001
         chk.disagree("c11.routes", repr(e))
         return
+    # (a') the per-origin table: driver vs translator; origins the harness sees vs the translator's
+    rep_of = {}
+    try:
+        exo = core.json.load(open(os.path.join(core.BUILD, "extract_c11_routes_origins.json"), encoding="utf-8"))
+        rep_of = exo["origin_rep"]
+        rep = model.ask(["c11.origins"])[0]
+        held = dict(item.split("=") for item in rep[1:])
+        for r1 in exo["reps"]:
+            for r in L.ROUTES:
+                want = "".join("1" if exo["flags"][r1][r][k] else "0" for k in L.FLAG_ORDER)
+                chk.count("dump:origin-row")
+                if held.get(f"{r1}/{r}") != want:
+                    chk.disagree("c11.origins", f"{r1}/{r}: driver holds {held.get(r1 + '/' + r)}, translator measured {want}")
+        if sorted(exo["private"]) != sorted(ORIGIN_ROUTES):
+            chk.disagree("c11.origins", f"routes yielding a private registry: harness {ORIGIN_ROUTES}, translator {exo['private']}")
+    except Exception as e:  # noqa: BLE001
+        chk.disagree("c11.origins", repr(e))
     # (b) restore + follow-ups
     cases = []
     for fam, units in CORE_UNITS.items():
@@ -840,10 +881,42 @@ def correspond(chk, tier, rng):
                 real = ("ok", r, snapshot(q, r))
             except Exception as e:  # noqa: BLE001
                 real = ("err", type(e).__name__)
-            lines.append("\t".join(["c11.restore", route] + of))
-            meta.append(("restore", fam, unit, data, route, q, real))
-            lines.append("\t".join(["c11.guard", route] + of))
-            meta.append(("guard", fam, unit, data, route, q, real))
+            if fam.startswith(AFTER):
+                # second step of a history: the configuration is looked up for the ORIGIN of the registry
+                o = rep_of.get(fam[len(AFTER):], fam[len(AFTER):])
+                lines.append("\t".join(["c11.restoreAt", o, route] + of))
+                meta.append(("restore", fam, unit, data, route, q, real))
+                lines.append("\t".join(["c11.guardAt", o, route] + of))
+                meta.append(("guard", fam, unit, data, route, q, real))
+                chk.count("corr:second-step")
+                if data == "a" and unit == "km":
+                    # a longer history in the model: add a row, copy (same Unit: the origin stays), add
+                    # another row, persist on `route` — against the library doing the same
+                    try:
+                        ns2 = fresh_ns()
+                        exec(case_src("default", "km", "a", False).replace("reg = default_unit_registry\n", f"reg = origin_registry({fam[len(AFTER):]!r})\n"), ns2)  # noqa: S102
+                        q0 = ns2["q"]
+                        of0 = obj_fields(q0)
+                        import unyt.dimensions as D
+                        q0.units.registry.add("vfoo", 3.0, D.length, prefixable=True)
+                        a1 = entry_wire("vfoo", q0.units.registry.lut["vfoo"])
+                        q1 = L.restore("arrayCopy", q0)
+                        q1.units.registry.add("vang", 0.5, D.angle)
+                        a2 = entry_wire("vang", q1.units.registry.lut["vang"])
+                        try:
+                            r2 = L.restore(route, q1)
+                            real2 = ("ok", r2, snapshot(q1, r2))
+                        except Exception as e:  # noqa: BLE001
+                            real2 = ("err", type(e).__name__)
+                        lines.append("\t".join(["c11.chain", o] + of0 + ["2", a1, "", "arrayCopy", a2, "", route]))
+                        meta.append(("chain", fam, unit, data, route, q1, real2))
+                    except Exception as e:  # noqa: BLE001
+                        chk.disagree("c11.chain", f"{fam} {route}: could not run the history: {e!r}")
+            else:
+                lines.append("\t".join(["c11.restore", route] + of))
+                meta.append(("restore", fam, unit, data, route, q, real))
+                lines.append("\t".join(["c11.guard", route] + of))
+                meta.append(("guard", fam, unit, data, route, q, real))
             if data != "a" or real[0] != "ok":
                 continue
             if route == "arrayCopy":
@@ -860,6 +933,14 @@ def correspond(chk, tier, rng):
             compare_restore(chk, rep, m)
         elif m[0] == "guard":
             compare_guard(chk, rep, m)
+        elif m[0] == "chain":
+            chk.count("corr:chain")
+            if rep[0] == "ok":
+                # ok <final origin> <chainGuard> obj…
+                compare_guard(chk, ["ok", rep[2]], ("guard",) + m[1:])
+                compare_restore(chk, ["ok"] + rep[3:], ("restore",) + m[1:])
+            else:
+                compare_restore(chk, rep, ("restore",) + m[1:])
         else:
             compare_follow(chk, rep, m)
 
@@ -1131,7 +1212,9 @@ def run(tier, seed):
         "the string caches are modelled on their miss path; warm paths are covered by the direct oracle only",
     ]
     rule = ("(family, unit, data, warm/cold, route, pickle protocol, container) cases: every route x core units of 7 registry families "
-            "(default, added symbols, modified default, removed default, unit system, objects created before modify) + seeded table symbols and "
+            "(default, added symbols, modified default, removed default, unit system, objects created before modify) and of the two-step-history "
+            "families `after-<route1>` (the registry a route hands back for a default-registry quantity, user units added, persisted again) "
+            "+ seeded table symbols and "
             "generated compounds; each case runs the 44-operation follow-up battery on original and restored in both orders; "
             "registry-contents cases (registry, unit, data, route incl. registry-only routes, protocol): default symbols re-declared with ONE field "
             "changed (value, dimensions, offset, prefixable flag either way, tex) singly and together, added / modified / removed symbols, "
